@@ -86,7 +86,21 @@ func c19program(rng *rand.Rand, names []string) string {
 	n := func() string { return names[rng.Intn(len(names))] }
 	k := c19errKinds[rng.Intn(len(c19errKinds))]
 	protos := []string{"Int", "Str", "Arr", "Obj", "Kernel", "JSON", "Map", "Either", "Iterable", "Nil", "Err"}
-	switch rng.Intn(36) {
+	switch rng.Intn(40) {
+	case 36:
+		// a property defined on a child of a scalar prototype and used on an instance of it: plain scalars never get it
+		nm := []string{"lab_shared", "lab_" + n()}[rng.Intn(2)]
+		return fmt.Sprintf("SS := Str.bear({%s: m{\"tag:\" + self}}); II := Int.bear({%s: m{self * 100}}); FF := Float.bear({%s: m{self}})\n[SS.new(\"a\").%s, II.new(5).%s, FF.new(1.5).%s].p", nm, nm, nm, nm, nm, nm)
+	case 37:
+		nm := []string{"lab_shared", "lab_shared", "lab_" + n()}[rng.Intn(3)]
+		return fmt.Sprintf("[\"a\".try.%s.err.type, 5.try.%s.err.type, 1.5.try.%s.err.type, nil.try.%s.err.type, true.try.%s.err.type].p\n5.%s", nm, nm, nm, nm, nm, nm)
+	case 38:
+		// thoughtful chains whose last element fails or yields nil (literal, variable and property forms), in a successful program
+		return []string{"[2, 'a, 3, 'b]~$(1){|acc, x| acc * x}.p", "[2, nil]~$(1)*.p", "mul := {|acc, x| acc * x}\n[2, 3, 'z]~$(1)^mul.p",
+			"[1, 'q]~@{|x| x + 1}.p", "['q]~@+(1).p", "'q~.+(1).p", "[2, nil, 3, nil]~$(1){|acc, x| acc * x}.p\n[1]~@{|x| nil}.p"}[rng.Intn(7)]
+	case 39:
+		// an uncaught error two calls deep: its report lists every position
+		return fmt.Sprintf("area := {|o| o.width * o.height}\nshow := {|o| area(o).p}\nshow({width: %d})", 2+rng.Intn(5))
 	case 34:
 		// many calls that end in an error, all handled: nothing of them is left for later programs
 		return "chk := {|n| raise ValueErr.new(\"gave up\") if n == 0; chk(n - 1)}\n(1:41)@{|i| i.try.{chk(250)}.err?}.len.p"
@@ -363,6 +377,80 @@ func runC19(w *fw.W) {
 		}
 		vs.finish(&r)
 		w.End(r)
+	}
+
+	// paired scenarios: an earlier program and a later one that would meet through process-wide state if there were
+	// any (same property name on a scalar's child / on a plain scalar, module loads, failing calls then deep recursion,
+	// thoughtful chains ending in a failure then an uncaught error, names and stack traces); every scenario is run in
+	// every round, not left to the draw
+	{
+		c19setupLib()
+		lib := c19libRel
+		scenarios := []struct {
+			name string
+			hist []string
+			b    string
+		}{
+			{"prop of a scalar's child, then the same name on plain scalars",
+				[]string{"SS := Str.bear({lab_pair: m{\"tag:\" + self}}); II := Int.bear({lab_pair: m{self * 100}})\n[SS.new(\"a\").lab_pair, II.new(5).lab_pair, nil.try.lab_pair.err.type].p"},
+				"[\"a\".try.lab_pair.err.type, 5.try.lab_pair.err.type].p\n5.lab_pair"},
+			{"thoughtful chains ending in a failure, then an uncaught error two calls deep",
+				[]string{"[2, 'a, 3, 'b]~$(1){|acc, x| acc * x}.p", "mul := {|acc, x| acc * x}\n[2, 3, 'z]~$(1)^mul.p\n[2, nil]~$(1)*.p\n[1, 'q]~@{|x| x + 1}.p\n'q~.+(1).p"},
+				"area := {|o| o.width * o.height}\nshow := {|o| area(o).p}\nshow({width: 3})"},
+			{"handled failing calls, then deep recursion",
+				[]string{"chk := {|n| raise ValueErr.new(\"gave up\") if n == 0; chk(n - 1)}\n(1:41)@{|i| i.try.{chk(250)}.err?}.len.p"},
+				"dp := {|n| 0 if n == 0 else dp(n - 1) + 1}\ndp(1500).p"},
+			{"module imported by relative path twice",
+				[]string{"t := import(\"" + lib + "/ticket\")\nt.tickets.next.p\nt.tickets.next.p"},
+				"t := import(\"" + lib + "/ticket\")\nt.tickets.next.p"},
+			{"standard module invited inside a function",
+				[]string{"setup := {|| invite!(\"dummy\")}\nsetup()\n1.p"}, "message.p"},
+			{"the shared _ object raised after being taken out as a value",
+				[]string{"1.try.fmap {|x| Either.values[0]}.err.type.p", "1.try.fmap {|x| Obj.callProp(Either, 'val)}.err.type.p"}, "\n\nEither.values[0]"},
+			{"variables and functions of an earlier program",
+				[]string{"pair_v := 41\npair_f := {|x| x + pair_v}\npair_f(1).p"}, "pair_f(1).p"},
+			{"iterators driven past their end, then an uncaught StopIterErr",
+				[]string{"it := [1]._iter\nit.next\nit.try.next\nit.try.next", "[]._iter.try.next.err.p"}, "it2 := [7]._iter\nit2.next.p\nit2.next"},
+			{"many positional arguments, then the same arity again",
+				[]string{"{[\\9, \\12, \\0.len]}(1, 2, 3, 4, 5, 6, 7, 8, 9, 10, 11, 12).p"}, "{[\\9, \\12, \\0.len]}(1, 2, 3, 4, 5, 6, 7, 8, 9, 10, 11, 12).p\n{[\\13]}(1, 2, 3, 4, 5, 6, 7, 8, 9, 10, 11, 12)"},
+			{"a function literal with a default evaluated twice in different scopes",
+				[]string{"mk := {|g| {|nm, hello: g| hello + nm}}\nmk(\"Hi \")(\"A\").p"}, "mk := {|g| {|nm, hello: g| hello + nm}}\nmk(\"Yo \")(\"B\").p"},
+		}
+		for si, sc := range scenarios {
+			if !w.Take() {
+				continue
+			}
+			setup()
+			w.Begin("paired scenario: "+sc.name, map[string]any{"scenario": sc.name})
+			var vs violSet
+			f1, f2, err := freshObs(self, tmp, sc.b, 100000+si)
+			switch {
+			case err != nil:
+				w.End(fw.Result{Verdict: fw.Inconclusive, Reason: "fresh-process-failed"})
+				continue
+			case f1 != f2:
+				w.End(fw.Result{Verdict: fw.Inconclusive, Reason: "B-nondeterministic"})
+				continue
+			}
+			n := 0
+			for rep := 0; rep < 3; rep++ {
+				for _, h := range sc.hist {
+					ip.Run(h, interp.Options{FileName: "<c19>", Stdin: strings.NewReader("h1\nh2\n")})
+					n++
+				}
+				got := toObsJSON(ip.Run(sc.b, interp.Options{FileName: "<c19>", Stdin: strings.NewReader("in1\nin2\n")}))
+				n++
+				if got != f1 {
+					field, a, b := diffObs(got, f1)
+					vs.add("C19|differs-from-fresh-process|"+field, fmt.Sprintf("scenario %q: program B:\n%s\nafter\n%s\nits %s is\n%s\nin a newly started process it is\n%s", sc.name, sc.b, strings.Join(sc.hist, "\n---\n"), field, truncateMid(a, 600), truncateMid(b, 600)),
+						map[string]any{"B": sc.b, "history": sc.hist})
+					break
+				}
+			}
+			r := fw.Result{Verdict: fw.Held, Evals: n, Counters: map[string]int{"paired_scenarios": 1, "pairs_compared": 3, "B_with_fresh_baseline": 1, "fresh_processes": 2}, DKeys: []string{"scenario|" + sc.name}}
+			vs.finish(&r)
+			w.End(r)
+		}
 	}
 
 	// `pangaea test` directories
